@@ -163,6 +163,33 @@ def normalise_sizes(node, aliases):
     return ast.fix_missing_locations(R().visit(_clone(node)))
 
 
+_CFGS = {}
+
+
+def equal_resolved(node_in_fn, value, forms):
+    """is `value` canonically equal to one of `forms` (source texts), directly or after substituting on both sides the locals that
+    have a single reaching definition at the statement of `node_in_fn` (hoisted or inlined temporaries do not matter)"""
+    if any(canon_equal(value, e) for e in forms):
+        return True
+    fn = node_in_fn
+    while fn is not None and not isinstance(fn, (ast.FunctionDef, ast.AsyncFunctionDef)):
+        fn = getattr(fn, "_parent", None)
+    if fn is None:
+        return False
+    try:
+        from .flow import CFG
+        cfg = _CFGS.get(id(fn))
+        if cfg is None:
+            cfg = _CFGS[id(fn)] = CFG(fn)
+        st = cfg_node(cfg, node_in_fn)
+        if st is None:
+            return False
+        rv = resolve_expr(cfg, st, value)
+        return any(canon_equal(rv, resolve_expr(cfg, st, ast.parse(e, mode="eval").body if isinstance(e, str) else e)) for e in forms)
+    except Exception:
+        return False
+
+
 def expect_assign(ctx, rule, unit, qn, scope, target_src, expected, site, why, ok_note="", all_sites=False):
     """Judge `target = value` statements of `scope` (a function / loop node): the value must be canonically equal to one of
     `expected` (source texts). No assignment to that target -> unrecognised (cannot judge); a different value -> violation.
@@ -174,12 +201,80 @@ def expect_assign(ctx, rule, unit, qn, scope, target_src, expected, site, why, o
         return None
     al = size_aliases(scope) if isinstance(scope, (ast.FunctionDef, ast.AsyncFunctionDef)) else {}
     good = [c for c in cands if isinstance(c, ast.Assign) and any(canon_equal(c.value, e) or canon_equal(normalise_sizes(c.value, al), normalise_sizes(e, al)) for e in expected)]
+    if not good:
+        # temporaries: compare after substituting, on both sides, every local that has a single definition reaching the statement
+        fn = scope
+        while fn is not None and not isinstance(fn, (ast.FunctionDef, ast.AsyncFunctionDef)):
+            fn = getattr(fn, "_parent", None)
+        if fn is not None:
+            try:
+                from .flow import CFG
+                cfg = _CFGS.get(id(fn))
+                if cfg is None:
+                    cfg = _CFGS[id(fn)] = CFG(fn)
+                for c in cands:
+                    if not isinstance(c, ast.Assign):
+                        continue
+                    st = cfg_node(cfg, c)
+                    if st is None:
+                        continue
+                    rv = resolve_expr(cfg, st, c.value)
+                    for e in expected:
+                        en = ast.parse(e, mode="eval").body if isinstance(e, str) else e
+                        if canon_equal(rv, resolve_expr(cfg, st, en)):
+                            good.append(c)
+                            break
+            except Exception:
+                pass
     if good and (not all_sites or len(good) == len(cands)):
         ctx.ok(rule, site, ok_note or f"{target_src} = {norm_src(good[0].value)[:80]}")
         return good[0]
     bad = next(c for c in cands if c not in good)
+    missing = missing_names(scope, expected)
+    if missing:
+        ctx.unrecognised(rule, site, f"the expected form is written with the temporaries {sorted(missing)}, which this function does not define")
+        return None
     ctx.violation(rule, unit.relpath, qn, norm_src(bad)[:200], f"{why} (found `{norm_src(bad)[:120]}`, expected {target_src} = {expected[0]})", line=bad.lineno, site=site)
     return None
+
+
+def missing_names(scope, expected):
+    """plain names used by every expected form that are bound nowhere in the enclosing function (nor parameters, nor module names):
+    the reference temporaries were inlined away, so the comparison cannot be made"""
+    fn = scope
+    while fn is not None and not isinstance(fn, (ast.FunctionDef, ast.AsyncFunctionDef)):
+        fn = getattr(fn, "_parent", None)
+    if fn is None:
+        return set()
+    bound = {a.arg for a in fn.args.args + fn.args.kwonlyargs + fn.args.posonlyargs}
+    for n in ast.walk(fn):
+        if isinstance(n, ast.Name) and isinstance(n.ctx, ast.Store):
+            bound.add(n.id)
+        elif isinstance(n, (ast.FunctionDef, ast.Lambda)) and n is not fn:
+            bound |= {a.arg for a in n.args.args}
+    mod = fn
+    while getattr(mod, "_parent", None) is not None:
+        mod = mod._parent
+    glob = set()
+    if isinstance(mod, ast.Module):
+        for st in mod.body:
+            if isinstance(st, (ast.Import, ast.ImportFrom)):
+                glob |= {(a.asname or a.name).split(".")[0] for a in st.names}
+            elif isinstance(st, (ast.FunctionDef, ast.ClassDef)):
+                glob.add(st.name)
+            elif isinstance(st, ast.Assign):
+                glob |= {t.id for t in st.targets if isinstance(t, ast.Name)}
+    import builtins
+    out = None
+    for e in expected:
+        try:
+            t = ast.parse(e, mode="eval").body if isinstance(e, str) else e
+        except SyntaxError:
+            continue
+        names = {n.id for n in ast.walk(t) if isinstance(n, ast.Name)}
+        miss = {n for n in names if n not in bound and n not in glob and not hasattr(builtins, n) and n not in ("np", "self")}
+        out = miss if out is None else (out & miss)
+    return out or set()
 
 
 def expect_call(ctx, rule, unit, qn, scope, callee, site, why, args=None, present_only=False):
